@@ -16,9 +16,10 @@ RULE = ("cases = (credential configuration, schedule of sends / datagram deliver
 WRAPS = ["coap_ticks", "coap_socket_send", "coap_socket_recv", "gnutls_handshake",
          "gnutls_record_send", "gnutls_record_recv", "gnutls_dtls_cookie_verify",
          "gnutls_psk_set_server_credentials_function", "gnutls_psk_set_client_credentials_function",
-         "coap_handle_dgram", "coap_dtls_handle_timeout", "coap_retransmit"]
+         "coap_handle_dgram", "coap_dtls_handle_timeout", "coap_retransmit",
+         "coap_io_do_epoll", "coap_io_process_lkd"]
 
-LOSSFREE_KINDS = ("blockmode/plain", "sni-history", "stranger-hello", "inject/in@", "cred/", "sched/plain", "sched/queue3", "sched/queue-mid", "sched/after", "sched/nstart2")
+LOSSFREE_KINDS = ("libprobe/", "blockmode/plain", "sni-history", "stranger-hello", "inject/in@", "cred/", "sched/plain", "sched/queue3", "sched/queue-mid", "sched/after", "sched/nstart2")
 
 
 def evaluate(run, model, drv, cases, lines):
@@ -65,7 +66,7 @@ def evaluate(run, model, drv, cases, lines):
             for nm, s in gen_tls.sessions_of(c, o):
                 if amb and nm == "c":
                     continue
-                if nm == "c" and "bm" in c.ops:
+                if nm == "c" and ("bm" in c.ops or "xt" in c.ops or any(op.startswith("ka") for op in c.ops)):
                     # block mode (lg_crcv bookkeeping, Observe cancellation on release) is not in
                     # the gate model: the client session is judged by the oracle only
                     run_cov_skip[0] += 1
@@ -126,7 +127,7 @@ def evaluate(run, model, drv, cases, lines):
             fails.append((i, "oracle", "handshake completed although the configured credentials do not match", False))
         # (d) delivery on loss-free schedules with matching credentials
         if match and not forced and c.kind.startswith(LOSSFREE_KINDS) and "rel" not in c.ops \
-           and not any(op[0] in "xuo" or op[:2] in ("is", "ic") for op in c.ops) and "a.nocs" not in toks:
+           and not any(op in ("x", "u", "o") or op[:2] in ("is", "ic") for op in c.ops) and "a.nocs" not in toks:
             q, sreq, rsp = gen_tls.completed(c, o)
             if sorted(q) != sorted(sreq) or sorted(q) != sorted(rsp):
                 fails.append((i, "oracle", "matching credentials, no loss: requests %s, server handler saw %s, client handler saw %s" % (q, sreq, rsp), False))
@@ -147,9 +148,18 @@ def norm(h):
 
 def shrink(run, model, drv, case, tag):
     """delta-debug the op list of a failing case (same failure class)"""
+    def setup(op):
+        return op in ("C", "bm", "xt") or op[:2] in ("ka", "ns", "mh") or op[:1] == "K"
+    keep = [op for op in case.ops if setup(op)]
+    ends_a = bool(case.ops) and case.ops[-1] == "a"
+
     def still(_, ops):
+        ops = [" ".join(o) if isinstance(o, list) else o for o in ops]
+        # a smaller case must still be a fair one: same set-up, and still pumped to the end
+        if [op for op in ops if setup(op)] != keep or (ends_a and (not ops or ops[-1] != "a")):
+            return False
         c2 = gen_tls.parse_case_line(case.line())
-        c2.ops = [" ".join(o) if isinstance(o, list) else o for o in ops]
+        c2.ops = ops
         c2.kind = case.kind
         _, _, f = evaluate(run, model, drv, [c2], [c2.line()])
         return any(x[1] == tag for x in f)
